@@ -15,6 +15,9 @@ pub const EXPRS: &[&str] = &[
     "a[",                               // failing compile
     "cf(a) || [::0]",                   // custom runtime; falls through to a failing slice
     "sort_by(a, &b)[0] && length(a)",   // by-function, then a second call
+    "  abs('x') ",                      // differs from the first only in surrounding whitespace
+    "to_string(`1`)",                   // two literals that are equal by value but spelled differently
+    "to_string(`1.0`)",
 ];
 
 pub fn docs() -> Vec<Value> {
@@ -26,7 +29,7 @@ pub fn docs() -> Vec<Value> {
     ]
 }
 
-pub const N_E: usize = 7;
+pub const N_E: usize = 10;
 pub const N_D: usize = 4;
 
 #[derive(Clone, Copy, Debug, PartialEq, Eq, Hash)]
